@@ -94,6 +94,11 @@ pub fn run_bisync(
     let host = host_id();
     // Start from the trusted base and mutate to the new common state as we apply.
     let mut common = base;
+    // An entry for a path that no longer exists on either side is history, not
+    // common state: dropped from the plan (nothing to do), it would otherwise
+    // survive in the archive forever and later be read as positive evidence
+    // that a re-created file with the old content was deleted by the peer.
+    common.retain(|p, _| a.contains_key(p) || b.contains_key(p));
     let mut conflict_paths: Vec<PathBuf> = Vec::new();
     for (path, act) in &plan {
         apply(
